@@ -858,7 +858,7 @@ pub fn spec_for(prop: &str) -> Option<CheckSpec> {
         "C03" => mixed(hist_spec("C03", Profile::C03, "60% hist / 40% conc. conc clause: reader tasks take a snapshot or iterator, dump it immediately and dump it again later (and compare get with scan at the snapshot) while writer tasks keep rotating memtables, flushing and compacting; table-cache capacity 2 in most runs forces a parked reader to re-open files; first and later dumps must be equal and no read may fail. hist clause: one evaluation = one simulated single-client history in which snapshots and iterators are taken at arbitrary points, several live at once, and are re-read (get of every universe key, full forward and backward scan, get/scan agreement) after later write bursts, flushes, manual and background compactions; oracle = frozen BTreeMap clone taken at creation. distinct_nontrivial = distinct coverage signatures among runs where tables were written and read back.", &["l0_ge4_over_l1_ge2"], (40_000, 1_500_000)), vec![(60, Variant::Hist(Profile::C03)), (40, Variant::Conc(ConcProfile::C03))]),
         "C04" => hist_spec("C04", Profile::C04, "one evaluation = one simulated history that builds an LSM shape under scheduler control while up to 3 iterators (latest or at a snapshot) are driven by random cursor programs over {seek(universe key or neighbour), seek_to_first, seek_to_last, next, prev} with direction reversals; after every step is_valid()/current() must equal a model cursor over the sorted visible pairs; iterators stay open across later writes, flushes and compactions. The cursor program is input generation; the simulation content is the layout under the iterator (produced by the background thread under scheduler control) and iterators outliving compaction and file deletion.", &["l0_ge4_over_l1_ge2"], (40_000, 1_500_000)),
         "C07" => mixed(hist_spec("C07", Profile::C07, "70% hist / 30% conc. conc clause: after concurrent writers finished (no quiesce), 1-2 reader tasks dump the database forwards/backwards repeatedly while the main task runs flush / compact_range and the background thread compacts; every dump must equal the state captured before. hist clause: one evaluation = one simulated history in which every flush, compact_range(range incl. open ends, empty, reversed) and quiesce is bracketed by full dumps at the latest state and at each live snapshot; dump_before == dump_after (and == model) is required. distinct_nontrivial = distinct coverage signatures among runs where tables were written and read back.", &["l0_ge4_over_l1_ge2", "multi_file_level_ge2"], (40_000, 1_500_000)), vec![(70, Variant::Hist(Profile::C07)), (30, Variant::Conc(ConcProfile::C07))]),
-        "C10" => mixed(hist_spec("C10", Profile::C10, "80% hist / 20% crash-image runs (one evaluation per crash point: the shape oracle runs on every recovered image right after open). hist clause: one evaluation = one simulated history; after the first open, every reopen, every CheckAll and at the end the database is quiesced and the structured shape (verif_shape) is checked: per level >= 1 files sorted and pairwise disjoint in internal-key order, smallest <= largest, no file number twice, and every file's bounds equal its first/last stored entry (table read back through verif_api::table_entries); cross-checked against NumFilesAtLevel and SSTables descriptors.", &["l0_ge4_over_l1_ge2", "multi_file_level_ge2"], (20_000, 1_500_000)), vec![(80, Variant::Hist(Profile::C10)), (20, Variant::Crash)]),
+        "C10" => mixed(hist_spec("C10", Profile::C10, "70% hist / 10% conc / 20% crash-image runs (the structural part - unique numbers, ordered bounds, sorted and disjoint levels - is also checked at arbitrary moments while writers and the background thread are active: every 8th operation of a history and at every iterator creation of a concurrent run; one evaluation per crash point: the shape oracle runs on every recovered image right after open). hist clause: one evaluation = one simulated history; after the first open, every reopen, every CheckAll and at the end the database is quiesced and the structured shape (verif_shape) is checked: per level >= 1 files sorted and pairwise disjoint in internal-key order, smallest <= largest, no file number twice, and every file's bounds equal its first/last stored entry (table read back through verif_api::table_entries); cross-checked against NumFilesAtLevel and SSTables descriptors.", &["l0_ge4_over_l1_ge2", "multi_file_level_ge2"], (20_000, 1_500_000)), vec![(70, Variant::Hist(Profile::C10)), (10, Variant::Conc(ConcProfile::C11)), (20, Variant::Crash)]),
         "C11" => mixed(hist_spec("C11", Profile::C11, "42% hist / 28% conc / 20% crash-image runs / 10% fault-enumeration runs (after a transient fault that left no recorded error - a failed read - two forced flushes and a quiesce later the directory must hold exactly the needed files). Crash-image runs (one evaluation per crash point: the directory of every recovered image must equal the needed set right after open - orphan tables, half-written temp files and superseded manifests are reclaimed - and recovery must never fail with missing files). conc clause: reader tasks hold iterators (pinned table set known from verif_shape before/after creation; unknown pins counted as pin_unknown) while writers flush and compact with table-cache capacity 2; a remove of a pinned table in the SimFs log during the iterator's lifetime, or any read failing with NotFound, is a violation. hist clause: one evaluation = one simulated history; the directory listing of SimFs is compared with {CURRENT, LOCK, current manifest, active WAL, tables of the current version} right after every successful open and at quiescent points where no iterator is alive and one reclamation opportunity (flush/compaction end) has passed since the last iterator release; files pending between a release and the next opportunity are counted as lazy_pending_files, not violations; any read failing with NotFound is a violation.", &["l0_ge4_over_l1_ge2"], (20_000, 1_500_000)), vec![(42, Variant::Hist(Profile::C11)), (28, Variant::Conc(ConcProfile::C11)), (20, Variant::Crash), (10, Variant::IoFault)]),
         "C09" => mixed(
             hist_spec("C09", Profile::C09, "one evaluation = one simulated run: 5% fault-enumeration runs of the C08 engine (hangs and background panics after a transient or partial-write fault - the filesystem keeps making progress - count; those under a sticky fault do not), the rest on a fault-free filesystem: 25% single-client histories incl. every descriptor kind, 30% concurrent runs with writers, readers, compact_range, every descriptor kind (incl. Stats), snapshot take/release, flush, and close while background work may still be in flight, 40% the concurrent workloads of C05/C03/C11/C06. Violations: shuttle reports a deadlock (all live tasks blocked) or a re-entrant lock acquisition; any task of an open database panics (the orphan worker of a failed open is exempt); a background error is recorded; a run exceeds 2M scheduler steps and still does under a fair round-robin schedule (otherwise counted as unfair_schedule_timeouts).", &["freeze_fired"], (30_000, 2_000_000)),
